@@ -41,6 +41,7 @@ func GenPlan(family string, seed uint64) *Plan {
 	sameIDConfig(p, seed)
 	bigPrioConfig(p, seed)
 	vodConfig(p, seed)
+	bigThresholdConfig(p, seed)
 	if r := NewRng(seed, "inlock/"+family); !p.Sched.Free && len(p.Insts) > 0 && p.Sched.InLock == 0 && p.Sched.YieldProb > 0 {
 		switch family {
 		case "faultfree", "mixed", "c08", "c05ack", "c07rounds", "c13", "ctxcancel", "stoprestart":
@@ -92,6 +93,26 @@ func vodConfig(p *Plan, seed uint64) {
 		p.Actions = append(p.Actions, a)
 	}
 	p.Note += " vod"
+}
+
+// bigThresholdConfig: in one c12 plan out of fifteen MaxConsecutiveFailures is a number beyond
+// 32 bits ("never demote on health"; validateConfig accepts any non-negative value): the health
+// mechanism must then never demote within a plan. Drawn from a stream of its own.
+func bigThresholdConfig(p *Plan, seed uint64) {
+	if p.Family != "c12" {
+		return
+	}
+	r := NewRng(seed, "bigthreshold/"+p.Family)
+	if !r.Bool(1.0 / 15) {
+		return
+	}
+	m := Pick(r, []int{1 << 32, 1<<32 + 2, 1 << 31, 1<<40 + 1})
+	for i := range p.Insts {
+		if p.Insts[i].HasHealth {
+			p.Insts[i].MaxHealth = m
+		}
+	}
+	p.Note += " big-threshold"
 }
 
 // bigPrioConfig: in one plan out of ten of the families whose records are written by the
